@@ -2,6 +2,10 @@ import RsslVerif.Gen.PanicSites
 import RsslVerif.Model.Progress
 import RsslVerif.Lemmas.Progress
 import RsslVerif.Lemmas.PanicClasses
+import RsslVerif.Gen.ArithSites
+import RsslVerif.Model.DefinedLoc
+import RsslVerif.Lemmas.DefinedLoc
+import RsslVerif.Lemmas.ArithClasses
 /-!
 # C08 — compilation is total
 
@@ -349,6 +353,108 @@ theorem panic_sites_classified :
     reviewed.all (fun r => classNames.contains r.2.1) = true := by
   constructor <;> decide +kernel
 
+
+/-! ## implicit panic sites: unchecked arithmetic, casts, indexing and slicing in the preprocessor / lexer core -/
+
+open RsslVerif.Lemmas.ArithClasses in
+/-- **Every unchecked `+ - *`, `as` cast, index and slice inside the non-test functions of `preprocess.rs`,
+    `lexer.rs`, `condition_parser.rs` and `location.rs` is a reviewed one**, with the invariant that makes it safe
+    (`Lemmas/ArithClasses.lean`).  The inventory is regenerated from the source on every run; a new operation, or
+    an inventoried one whose operands change, breaks the obligation (both lists are sorted: linear sub-list test).
+    None is classified reachable. -/
+theorem arith_sites_classified :
+    List.isSublist RsslVerif.Gen.ArithSites.sites (reviewed.map (·.1)) = true ∧
+    reviewed.all (fun r => classNames.contains r.2.1) = true ∧
+    reviewed.all (fun r => r.2.1 != "reachable-known-finding") = true ∧
+    RsslVerif.Gen.ArithSites.files = ["preprocess/src/preprocess.rs", "preprocess/src/lexer.rs",
+      "preprocess/src/condition_parser.rs", "text/src/location.rs"] := by
+  refine ⟨?_, ?_, ?_, ?_⟩ <;> decide +kernel
+
+/-! ## the location arithmetic of `defined` -/
+
+section DefinedLocation
+open RsslVerif.Model.DefinedLoc RsslVerif.Lemmas.DefinedLoc RsslVerif.Gen.ArithSites
+
+/-- Tie to the source: `find_single_macro` reports `defined` only at or after `next_pos` and only under
+    `apply_defined`; the `Defined` arm takes the start from `tokens[pos]`, the end from the last consumed token and
+    subtracts the raw values; the scan positions after each operation are the modelled ones; only `#if` and `#elif`
+    scan with `apply_defined = true`; `Token::Concat` / `Token::MacroArg` are made in `Macro::parse` only. -/
+theorem defined_shape_as_modelled :
+    definedShape = ⟨true, true, true, true, true, true, true, true, true, true, true, true, true, true, true, true⟩ ∧
+    recursiveScanCalls = 2 ∧ scansWithDefined = 2 ∧ concatConstructions = 1 ∧ macroArgConstructions = 1 := by
+  decide
+
+/-- **`end_location.get_raw() - start_location.get_raw()` cannot overflow on the current code**, for every macro
+    table (bodies with arbitrary locations: other files, API defines, scratch files), every `##` oracle that does
+    not invent `Concat` tokens, every command line whose tokens come from one lexer run (`Mono`) and carry no
+    `Concat` (the lexer makes `HashHash`), with or without `apply_defined`, and every amount of fuel.
+    The proof uses the flags the *current source* passes to the two recursive scans (`Gen.ArithSites.bodyRescanFlag`,
+    `argExpandFlag`, re-extracted on every run): both are the constant `false`, hence `defined` only fires in the
+    outermost scan, at or after `next_pos`, where the tokens are an untouched suffix of the command line. -/
+theorem defined_location_safe (paste : Tok → Tok → Option Tok)
+    (hpaste : ∀ a b t, paste a b = some t → t.k ≠ .concat)
+    (defs : List Macro) (cmd : List Tok) (hmono : Mono cmd) (hnc : NoConcat cmd) (ad : Bool) (fuel : Nat) :
+    applyMacros paste bodyRescanFlag argExpandFlag fuel defs cmd ad ≠ .error .subOverflow := by
+  have hb : bodyRescanFlag = .constFalse := by decide
+  have ha : argExpandFlag = .constFalse := by decide
+  rw [hb, ha]
+  unfold applyMacros
+  exact applyLoop_no_subOverflow paste hpaste cmd hmono fuel _ cmd SearchPos.start ad
+    (fun _ => ⟨hnc, 0, rfl⟩)
+
+/-- the header `#define ENABLED(x) (defined x)` registered after the file that says `#if ENABLED(FOO)` -/
+def witnessDefs : List Macro :=
+  [⟨1, true, 1, [⟨.lparen, 120, 121⟩, ⟨.id definedName, 121, 128⟩, ⟨.blank, 128, 129⟩, ⟨.arg 0, 129, 130⟩, ⟨.rparen, 130, 131⟩]⟩]
+def witnessCmd : List Tok := [⟨.id 1, 20, 27⟩, ⟨.lparen, 27, 28⟩, ⟨.id 2, 28, 31⟩, ⟨.rparen, 31, 32⟩]
+
+/-- **The flag is what makes it safe** (negation witness): if the rescan of the substituted body ran with the
+    caller's `apply_defined`, a function-like macro whose body says `defined x`, defined in a file registered
+    after the one with the `#if`, subtracts a larger start from a smaller end. -/
+theorem defined_location_needs_plain_rescan :
+    Mono witnessCmd ∧ NoConcat witnessCmd ∧
+    applyMacros (fun _ _ => none) .caller .constFalse 10 witnessDefs witnessCmd true = .error .subOverflow ∧
+    applyMacros (fun _ _ => none) bodyRescanFlag argExpandFlag 10 witnessDefs witnessCmd true =
+      .ok [⟨.lparen, 120, 121⟩, ⟨.id definedName, 121, 128⟩, ⟨.blank, 128, 129⟩, ⟨.id 2, 28, 31⟩, ⟨.rparen, 130, 131⟩] := by
+  refine ⟨mono_of_tiled _ (by decide), ?_, by rfl, by rfl⟩
+  intro t ht
+  simp only [witnessCmd, List.mem_cons, List.mem_nil_iff, or_false] at ht
+  rcases ht with rfl | rfl | rfl | rfl <;> simp
+
+/-- **The two index computations of the `Defined` arm stay in range**: whenever the operand of `defined` was read
+    (`definedRest`), `tokens.len() - remaining.len() - 1` does not underflow and is an index after `pos`, so
+    `definedToken` never reports one of its index panics. -/
+theorem defined_indices_in_range (toks : List Tok) (env : List Entry) (p : Nat) (rem : List Tok) (op : Option Nat)
+    (hp : p < toks.length) (hrem : definedRest (toks.drop (p + 1)) = .ok rem) :
+    rem.length + 1 ≤ toks.length ∧ p + 1 ≤ toks.length - rem.length - 1 ∧ toks.length - rem.length - 1 < toks.length ∧
+    ∀ s, definedToken toks env p rem op ≠ .error (.panic s) := by
+  have hlen := definedRest_length _ _ hrem
+  simp only [List.length_drop] at hlen
+  refine ⟨by omega, by omega, by omega, ?_⟩
+  intro s h
+  unfold definedToken at h
+  split at h
+  · rename_i hn
+    rw [List.getElem?_eq_none_iff] at hn
+    omega
+  · split at h
+    · split at h
+      · rename_i hn
+        rw [List.getElem?_eq_none_iff] at hn
+        omega
+      · split at h <;> cases h
+    · omega
+
+/-- A completed scan leaves no `Concat` token in its output, whatever the flags (so the `continue` without
+    progress in `find_single_macro`, which needs a `Concat` before `next_pos`, is not reached from a spliced result). -/
+theorem scan_output_has_no_concat (paste : Tok → Tok → Option Tok)
+    (hpaste : ∀ a b t, paste a b = some t → t.k ≠ .concat) (bf af : FlagSrc)
+    (defs : List Macro) (toks out : List Tok) (ad : Bool) (fuel : Nat)
+    (h : applyMacros paste bf af fuel defs toks ad = .ok out) : NoConcat out :=
+  applyLoop_noConcat paste bf af hpaste fuel _ toks SearchPos.start ad out
+    (by intro i t hi; simp [SearchPos.start] at hi) h
+
+end DefinedLocation
+
 /-! ## non-vacuity -/
 
 /-- a consuming element parser: one token per element -/
@@ -368,5 +474,16 @@ example : readToEnd (fun off => if off < 3 then some (off + 1, off == 1) else no
 example : runFile [.ifD false, .text 1, .elif true, .text 2, .els, .text 3, .endif, .text 4] = .ok [2, 4] := rfl
 example : runFile [.ifD true, .els, .endif, .endif] = .error .endIfNotMatched := rfl
 example : runFile [.ifD true, .ifD false] = .error .notFinished := rfl
+
+section
+open RsslVerif.Model.DefinedLoc RsslVerif.Lemmas.DefinedLoc RsslVerif.Gen.ArithSites
+/-- `#if defined FOO && HAS(BAR)` with `#define HAS(x) defined(x)`: the bare `defined` fires in the outer scan, the one
+    from the body does not -/
+example : applyMacros (fun _ _ => none) bodyRescanFlag argExpandFlag 10
+    [⟨3, true, 1, [⟨.id definedName, 200, 207⟩, ⟨.lparen, 207, 208⟩, ⟨.arg 0, 208, 209⟩, ⟨.rparen, 209, 210⟩]⟩]
+    [⟨.id definedName, 4, 11⟩, ⟨.blank, 11, 12⟩, ⟨.id 2, 12, 15⟩, ⟨.blank, 15, 16⟩, ⟨.id 3, 16, 19⟩, ⟨.lparen, 19, 20⟩, ⟨.id 4, 20, 23⟩, ⟨.rparen, 23, 24⟩] true =
+    .ok [⟨.lit 0, 4, 15⟩, ⟨.blank, 15, 16⟩, ⟨.id definedName, 200, 207⟩, ⟨.lparen, 207, 208⟩, ⟨.id 4, 20, 23⟩, ⟨.rparen, 209, 210⟩] := by rfl
+example : tiled [⟨.id definedName, 4, 11⟩, ⟨.blank, 11, 12⟩, ⟨.id 2, 12, 15⟩] = true := by decide
+end
 
 end RsslVerif.Thm.C08
